@@ -43,6 +43,8 @@ class Degrees:
         result = None
         for st in U.body_without_docstring(f):
             if isinstance(st, ast.Assign) and len(st.targets) == 1 and isinstance(st.targets[0], ast.Name):
+                if U.dead_callfree_store(f, st):
+                    continue
                 env[st.targets[0].id] = self.expr(st.value, env, depth)
             elif isinstance(st, ast.AugAssign) and isinstance(st.target, ast.Name):
                 cur, v = env.get(st.target.id, ZERO), self.expr(st.value, env, depth)
